@@ -30,7 +30,25 @@ def run(ctx, rng):
         except asn1tools.errors.Error:
             r = -1
         ev.append((v, r))
+    # INTEGER: static length = type_length // 8, against X.696 (model) and against what the Python codec really emits
+    import c09_types as T
+    import lib
+    il = []
+    for lo, hi in rng.sample(T.INT_RANGES, 40):
+        try:
+            w = g.type_length(lo, hi) // 8
+        except asn1tools.errors.Error:
+            w = -1
+        il.append(((lo, hi), w))
+        if w > 0:
+            r = lib.attempt(lambda: len(lib.compile_string(
+                'M DEFINITIONS AUTOMATIC TAGS ::= BEGIN A ::= INTEGER (%d..%d) END' % (lo, hi), 'oer').encode('A', lo)))
+            if r[0] == 'ok' and r[1] != w:
+                ctx.violation('static length of INTEGER (%d..%d) is %d octets, the Python OER codec emits %d' % (lo, hi, w, r[1]),
+                              dict(kind='logic-integer-length', range=[lo, hi], generator=w, python=r[1]))
     body = '''
+Definition ilc : list ((Z * Z) * Z) := %s.
+Eval vm_compute in mismatches Z.eqb (fun c => match x696_int_octets (fst c) (snd c) with Some k => k | None => -1 end) ilc.
 Definition ldc : list (Z * Z) := %s.
 Eval vm_compute in mismatches Z.eqb gen_length_determinant_length ldc.
 Eval vm_compute in mismatches Z.eqb gen_length_determinant_length_fixed ldc.
@@ -40,10 +58,13 @@ Definition amc : list (Z * Z) := %s.
 Eval vm_compute in mismatches Z.eqb additions_mask_length amc.
 Definition evc : list (Z * Z) := %s.
 Eval vm_compute in mismatches Z.eqb (fun v => match gen_enumerated_value_length v with Some k => k | None => -1 end) evc.
-''' % (to_coq(ld), to_coq(pm), to_coq(am), to_coq(ev))
-    bad_ld, bad_ldf, bad_pm, bad_am, bad_ev = ctx.coq_eval(
+''' % (to_coq(il), to_coq(ld), to_coq(pm), to_coq(am), to_coq(ev))
+    bad_il, bad_ld, bad_ldf, bad_pm, bad_am, bad_ev = ctx.coq_eval(
         'oer_logic', ['Base.Prelude', 'Base.Corr', 'CGen.Helpers', 'CGen.OerHelpers', 'CGen.GenLogicOer'], body)
-    ctx.evaluations += len(ld) + len(pm) + len(am) + len(ev)
+    ctx.evaluations += len(ld) + len(pm) + len(am) + len(ev) + len(il)
+    for i in bad_il[:1]:
+        ctx.violation('static length of INTEGER (%d..%d) = %d octets differs from X.696 clause 10 (model x696_int_octets)' % (
+            il[i][0][0], il[i][0][1], il[i][1]), dict(kind='logic-integer-length', range=list(il[i][0]), generator=il[i][1]))
     ctx.count('logic:oer-static-length', len(ld))
     if bad_ld and bad_ldf:
         i = bad_ld[0] if bad_ld[0] in bad_ldf else bad_ldf[0]
